@@ -24,9 +24,9 @@ def run(tier, seed):
         raise vlib.Infra("no vectors")
     ck.binary = vlib.build_harness()
     rr = vlib.run_harness(ck.binary, PROP, vec, seed=seed, tier=tier, shards=4, timeout=3000)
-    os.unlink(vec)
     ck.absorb(rr)
-    ck.triage(rr.divs)
+    ck.triage(rr.divs, rerun=rr.again)
+    os.unlink(vec)
     ck.exhaustive = True
     ck.rule = ("TLC enumerates every grammatical timestamp shape (T/space, fraction lengths, Z / +hh:mm / +hhmm / space-prefixed / none, "
                "date only) and every single edit of it (replace by each class, delete, insert, truncate at every position) with the flag set "
